@@ -117,8 +117,9 @@ static void judge(const tmat_t *T, const mref_t *m, int vkind, const fcfg_t *c, 
     }
     if (!strcmp(PROP, "C02") || !strcmp(PROP, "C16")) {
         if (r->info != 0) { n_skipped++; if (!strcmp(PROP, "C02")) return; }
-        if (r->info == 0 && r->wf) {       /* malformed factors are C09's finding; nothing to multiply here */
+        if (r->info == 0 && r->wf) {       /* malformed factors: nothing to multiply; they cannot satisfy Pr A Pc = L U either */
             n_skipped++;
+            if (!strcmp(PROP, "C02")) VIOL("C02:malformed-factors", "info=0 but the returned L/U are not well-formed: %s", r->wfmsg);
             if (!strcmp(PROP, "C16")) { char sg2[96]; snprintf(sg2, sizeof sg2, "C16:slot%s%s", c->dyn ? ":dynamic-store" : "", c16cls); if (r->slot_overflow) VIOL(sg2, "%s", r->slotmsg); char sig[96]; snprintf(sig, sizeof sig, "C16:wellformed:code%d%s%s", r->wf, c->dyn ? ":dynamic-store" : "", c16cls); VIOL(sig, "%s", r->wfmsg); }
             return; }
         if (r->info == 0) {
